@@ -27,6 +27,10 @@ def drive(binary, wd, mode, out, **env):
     e.update({k: str(v) for k, v in env.items()})
     p = subprocess.run([binary, "-test.run", "TestVerifDriver", "-test.timeout", "3000s"], env=e, cwd=wd,
                        stdout=subprocess.PIPE, stderr=subprocess.STDOUT, text=True)
+    if p.returncode != 0 and "WARNING: DATA RACE" in p.stdout and os.path.exists(out) and os.path.getsize(out) > 0:
+        # (a race build: the testing package fails the run at its end because the detector reported something; the
+        # histories are complete, and the caller turns the reports into a violation)
+        return p.stdout
     if p.returncode != 0:
         raise vlib.CannotRun("mcrew overlay driver failed (%s):\n%s" % (mode, p.stdout[-3000:]))
     return p.stdout
@@ -96,10 +100,12 @@ def run(pid, tier, seed, replay):
     out = os.path.join(wd, "conc_traces.ndjson")
     drive(binary, wd, "svc-conc", out, VERIF_SEED=seed, VERIF_N=300 if tier == "quick" else 5000)
     runs.append(("concurrent", out))
-    if tier == "thorough":
+    if True:
+        # (the race detector as a sensor for requests that are not serialised: a reader that looks at machines while a
+        # request moves them is a data race whether or not the reader happens to see half of the request)
         rbin = vlib.build_overlay_test(wd, "cmd/mcrew", files, race=True)
         out = os.path.join(wd, "race_traces.ndjson")
-        txt = drive(rbin, wd, "svc-conc", out, VERIF_SEED=seed + 1, VERIF_N=1500, GORACE="halt_on_error=0")
+        txt = drive(rbin, wd, "svc-conc", out, VERIF_SEED=seed + 1, VERIF_N=120 if tier == "quick" else 1500, GORACE="halt_on_error=0")
         if "WARNING: DATA RACE" in txt:
             rep.reject("data race reported by the race detector in free-running concurrent clients", [], {"property": pid, "race": txt[-4000:]})
         runs.append(("concurrent-race", out))
